@@ -1,12 +1,12 @@
 """C08 - option state persists faithfully across the lifecycle (in-memory transition system; files outside)."""
-import copy
+import copy, argparse
 from symx.api import *
 
 PROPERTY = 'C08'
 LEVEL = 'model_checking'
 INSTRUMENT = dict(prefixes=('mesonbuild.',), exact=('mesonbuild', 'configparser'))
-FILES = ['mesonbuild/options.py', 'mesonbuild/cmdline.py', 'mesonbuild/coredata.py', 'mesonbuild/msetup.py']
-ENCODED = ['cmdline.write_cmd_line_file / update_cmd_line_file / read_cmd_line_file + configparser (stdlib, instrumented)', 'OptionStore.set_from_configure_command (-D sets, -U drops the augment / re-yields)', 'OptionStore.update_project_options (new / removed / re-ranged / re-typed option)',
+FILES = ['mesonbuild/options.py', 'mesonbuild/cmdline.py', 'mesonbuild/coredata.py', 'mesonbuild/msetup.py', 'mesonbuild/mconf.py']
+ENCODED = ['mconf.run_impl (collaborators recorded)', 'cmdline.write_cmd_line_file / update_cmd_line_file / read_cmd_line_file + configparser (stdlib, instrumented)', 'OptionStore.set_from_configure_command (-D sets, -U drops the augment / re-yields)', 'OptionStore.update_project_options (new / removed / re-ranged / re-typed option)',
            'options.choices_are_different', 'OptionStore.set_user_option/set_option/remove/add_project_option', 'OptionStore.get_value_for', 'UserOption.validate_value/set_value',
            'copy.deepcopy of the store standing in for one save/load cycle']
 EXPLANATION = ('The OptionStore is treated as a transition system: a history of lifecycle commands (configure -Dopt=v, -Dsub:opt=v, -Usub:opt, an option-file re-read that adds, removes, '
@@ -16,7 +16,7 @@ EXPLANATION = ('The OptionStore is treated as a transition system: a history of 
                'the persisted store only on success, which is how mconf/msetup save coredata.')
 ASSUMPTIONS = ['copy.deepcopy stands in for the pickle round-trip of coredata.dat (pickle is a C module)', 'one top-level project option, one system option, one subproject',
                'integer values -9..9, ranges within -5..5', 'a yielding boolean option pair (parent / subproject) with symbolic defaults']
-OUT = ('STATED PROMINENTLY: coredata.dat pickling, the --wipe run itself (only the cmd_line.txt round trip it relies on is decided), mconf.run_impl file handling. '
+OUT = ('STATED PROMINENTLY: coredata.dat pickling, the --wipe run itself (only the cmd_line.txt round trip it relies on is decided), mconf.run_impl file handling beyond the order and conditions of its persistence calls (configure-command). '
        'This check decides the state-transition half of C08 and the recorded-command-line round trip (3 of the 5 anchored mechanisms); kill points of the persistence protocol are C09.')
 MANIFEST = dict(
     text='Bounded model checking of the in-memory option state machine: all command histories up to the bound with symbolic values against a last-value/default reference model. '
@@ -252,6 +252,50 @@ def ob_cmdline_file(n):
     return h
 
 
+def ob_configure_command():
+    """the real mconf.run_impl with its collaborators recorded (Conf, mintro; cmdline.update_cmd_line_file): the protocol the history obligations rely on.
+    A command with -D/-U is recorded in cmd_line.txt whatever set_from_configure_command answers (restating a value is still 'the last value the user gave',
+    which --wipe must find); coredata is saved iff something changed or the cache was cleared; the record is written before the save"""
+    def h():
+        import types
+        from mesonbuild import mconf
+        has_flags = decide(sym_bool('command has -D/-U')); changed = decide(sym_bool('set_from_configure_command reports a change'))
+        clear = decide(sym_bool('--clearcache'))
+        log = []
+
+        class FakeConf:
+            def __init__(self, builddir):
+                self.default_values_only = False
+                self.build = types.SimpleNamespace(environment=types.SimpleNamespace(info_dir='/b/meson-info'))
+                self.coredata = types.SimpleNamespace(set_from_configure_command=lambda opts: (log.append(('set', opts)), changed)[1])
+            def clear_cache(self): log.append(('clear',))
+            def save(self): log.append(('save',))
+            def print_conf(self, pager): log.append(('print',))
+        opts = argparse.Namespace(cmd_line_options={O.OptionKey('someopt'): 'c1'} if has_flags else {}, clearcache=clear, pager=False)
+        saved = (mconf.Conf, mconf.mintro, mconf.cmdline)
+        mconf.Conf = FakeConf
+        mconf.mintro = types.SimpleNamespace(update_build_options=lambda *a: log.append(('intro-options',)), write_meson_info_file=lambda *a: log.append(('intro-info',)))
+        mconf.cmdline = types.SimpleNamespace(update_cmd_line_file=lambda bd, o: log.append(('record', bd, o)))
+        try:
+            rc = mconf.run_impl(opts, '/b')
+        finally:
+            mconf.Conf, mconf.mintro, mconf.cmdline = saved
+        kinds = [e[0] for e in log]
+        check(rc == 0, 'exit status 0')
+        if not has_flags and not clear:
+            check(kinds == ['print'], 'without -D/-U/--clearcache the command only prints'); cover('print-only'); return
+        check(kinds.count('record') == (1 if has_flags else 0), 'a command with -D/-U is recorded in cmd_line.txt exactly once - also when it restates the current value')
+        if has_flags:
+            rec = [e for e in log if e[0] == 'record'][0]
+            check(rec[1] == '/b' and rec[2] is opts, 'the record gets the build directory and the options of this command')
+            check(kinds.count('set') == 1 and kinds.index('set') < kinds.index('record'), 'options are applied (and validated) before the command line is recorded')
+        check(kinds.count('save') == (1 if (clear or (has_flags and changed)) else 0), 'coredata is saved iff something changed or the cache was cleared')
+        if 'save' in kinds and 'record' in kinds:
+            check(kinds.index('record') < kinds.index('save'), 'cmd_line.txt is updated before coredata.dat is replaced (the order the kill obligations of C09 assume)')
+        cover('configured')
+    return h
+
+
 def obligations(tier):
     q = tier == 'quick'
     out = []
@@ -261,6 +305,7 @@ def obligations(tier):
     for n in (0, 1, 2) if q else (0, 1, 2, 3):
         out.append(Obligation('cmdline-file[%d]' % n, ob_cmdline_file(n), dict(value_length=n, alphabet='a space = # newline [ % : ; tab', keys='opt, sub:o2, build.o3', then='nothing | update | delete'),
                               labels=('done',), max_paths=3000000, classify=classify_cmdline))
+    out.append(Obligation('configure-command', ob_configure_command(), dict(real='mconf.run_impl', recorded='Conf (load/save), mintro, cmdline.update_cmd_line_file', symbolic='-D/-U present, change reported, --clearcache'), labels=('configured', 'print-only')))
     import harness.c09 as c09
     out.append(Obligation('failed-reconfigure', c09.ob_failed_reconfigure(), dict(earlier_successful_saves='0..3', files='coredata.dat / .prev on the modelled file system of C09', rollback='except-branch of MesonApp._generate, mirrored'),
                           labels=('first-setup', 'rolled-back')))
